@@ -52,7 +52,7 @@ type mwObj struct {
 }
 
 type mwWorld struct {
-	objs []*mwObj
+	objs        []*mwObj
 	c           *Ctx
 	env         *mon.Env
 	seq         int
